@@ -10,7 +10,7 @@ from typing import AsyncIterator, List, Optional, Tuple
 
 from scrapli.channel.base_channel import BaseChannel, BaseChannelArgs
 from scrapli.decorators import timeout_wrapper
-from scrapli.exceptions import ScrapliAuthenticationFailed, ScrapliTimeout
+from scrapli.exceptions import ScrapliAuthenticationFailed, ScrapliConnectionError, ScrapliTimeout
 from scrapli.helper import output_roughly_contains_input
 from scrapli.transport.base import AsyncTransport
 
@@ -381,6 +381,15 @@ class AsyncChannel(BaseChannel):
                     buf = await asyncio.wait_for(self.read(), timeout=read_interval)
                 except asyncio.TimeoutError:
                     buf = b""
+                except ScrapliConnectionError:
+                    # telnet transport socket can send us an EOF which gets raised as a connection
+                    # error, if we see that we can try to send a return and go back to the top...
+                    # this first cropped up with telnet on asa devices in:
+                    # https://github.com/carlmontanari/scrapli/issues/278
+                    self.send_return()
+                    return_attempts += 1
+                    await asyncio.sleep(0.1)
+                    continue
 
                 if not buf:
                     current_iteration_time = datetime.now().timestamp()
